@@ -854,4 +854,414 @@ Proof.
   - rewrite Hdead. discriminate.
 Qed.
 
+Lemma sinflight_deliver_same o n k : sinflight o (SIDeliver o n :: k) = n :: sinflight o k.
+Proof. cbn [sinflight]. now rewrite Nat.eqb_refl. Qed.
+Lemma sinflight_deliver_other o o2 n k : o2 <> o -> sinflight o2 (SIDeliver o n :: k) = sinflight o2 k.
+Proof. intros H. cbn [sinflight]. destruct (Nat.eqb o o2) eqn:E; [apply Nat.eqb_eq in E; congruence|reflexivity]. Qed.
+
+Lemma sinv_deliver o n s m k l :
+  SInv (SCfg s m (SIDeliver o n :: k) l) -> SInv (sstep (SCfg s m (SIDeliver o n :: k) l)).
+Proof.
+  intros I. unfold ReplaySched.sstep. cbn [sc_k sc_st sc_obs sc_rlog].
+  assert (Hck : sclean k) by exact (sclean_tail _ _ (sinv_clean _ I)).
+  destruct (m o) as [os|] eqn:Hm.
+  2:{ exfalso. destruct (sinv_none_l _ _ _ _ o I Hm) as (_ & _ & Hi & _).
+      rewrite sinflight_deliver_same in Hi. discriminate. }
+  destruct (ra_stopped os) eqn:Hst.
+  - (* AutoDetachObserver.on_xxx: `if self.is_stopped: return` *)
+    apply (sinv_instr_generic s m (SIDeliver o n) k l s m k [] I); try reflexivity.
+    + apply same_but_obs_refl.
+    + exact (sinv_nodup _ I).
+    + exact (sinv_dom _ I).
+    + intros o2 H2. split; [exact H2|]. split; [reflexivity|].
+      destruct (Nat.eq_dec o2 o) as [->|Hne]; [congruence|]. rewrite sinflight_deliver_other by exact Hne. auto.
+    + intros o2 os2 H2. exists os2. split; [exact H2|]. cbn [app spend]. intros X' EX Hok Hp. exists X'.
+      split; [exact EX|]. split; [|exact Hp].
+      destruct (Nat.eq_dec o2 o) as [->|Hne].
+      * rewrite Hm in H2. injection H2 as <-. now apply (obs_ok_stopped_infl react _ _ _ (sinflight o (SIDeliver o n :: k))).
+      * rewrite sinflight_deliver_other in Hok by exact Hne. exact Hok.
+    + exact Hck.
+    + intros El x. exact (sinv_nopend _ I El x).
+  - assert (Hgen : forall stop kk, sclean kk -> (forall o2, sinflight o2 kk = sinflight o2 k /\ spend o2 kk = spend o2 k) ->
+                   (is_terminal n = true -> stop = true) ->
+                   SInv (SCfg s (rupd m o (rcalled stop os)) kk ([REGot o n] ++ l))).
+    { intros stop kk Hckk Hinf Hterm.
+      apply (sinv_instr_generic s m (SIDeliver o n) k l s _ kk [REGot o n] I).
+      - cbn [app]. apply lops_got.
+      - apply same_but_obs_refl.
+      - exact (sinv_nodup _ I).
+      - intros o2 Hi. unfold rupd. destruct (Nat.eqb o2 o); [discriminate|]. exact (sinv_dom _ I o2 Hi).
+      - intros o2. unfold rupd. destruct (Nat.eqb o2 o) eqn:E; [discriminate|]. intros H2.
+        apply Nat.eqb_neq in E. split; [exact H2|]. cbn [app]. rewrite lview_got.
+        destruct (Nat.eqb o o2) eqn:E2; [apply Nat.eqb_eq in E2; congruence|]. rewrite app_nil_r.
+        destruct (Hinf o2) as [K1 K2]. rewrite K1, K2, sinflight_deliver_other by exact E. auto.
+      - intros o2 os2. destruct (Hinf o2) as [K1 K2]. rewrite K1, K2. cbn [spend]. unfold rupd.
+        destruct (Nat.eqb o2 o) eqn:E.
+        + apply Nat.eqb_eq in E. subst o2. intros [= <-]. exists os. split; [exact Hm|].
+          cbn [app]. rewrite lview_got, Nat.eqb_refl, sinflight_deliver_same.
+          intros X' EX Hok Hp. exists X'. split; [exact EX|].
+          unfold obs_ok in *. cbn [rcalled ra_stopped r_so]. rewrite Hst in *. cbn [orb].
+          destruct Hok as [H1 H2]. destruct stop.
+          * split; [|apply pend_ok_stopped; [exact (proj1 Hp)|cbn; apply orb_true_r]].
+            rewrite <- H1. exists (sinflight o k ++ so_queue (r_so os)). rewrite <- app_assoc. reflexivity.
+          * split; [|eapply pend_ok_ext; [| |exact Hp]; cbn; [rewrite orb_false_r; tauto|tauto]].
+            rewrite <- app_assoc. cbn [app]. split; [exact H1|exact H2].
+        + apply Nat.eqb_neq in E. intros H2. exists os2. split; [exact H2|]. cbn [app].
+          rewrite lview_got. destruct (Nat.eqb o o2) eqn:E2; [apply Nat.eqb_eq in E2; congruence|].
+          rewrite app_nil_r, sinflight_deliver_other by exact E. intros X' EX Hok Hp. exists X'. auto.
+      - exact Hckk.
+      - intros El x. destruct (Hinf x) as [_ K2]. rewrite K2. exact (sinv_nopend _ I El x). }
+    assert (Hpush : forall pre, (forall x, sinflight x pre = [] /\ spend x pre = []) ->
+                    (forall i, In i pre -> is_top i = false) -> sclean (pre ++ k) /\
+                    forall o2, sinflight o2 (pre ++ k) = sinflight o2 k /\ spend o2 (pre ++ k) = spend o2 k).
+    { intros pre Hn Ht. split.
+      - apply sclean_push; [intros x; exact (proj1 (Hn x))|exact Hck|].
+        intros [i [Hin Hi]]. rewrite (Ht i Hin) in Hi. discriminate.
+      - intros o2. rewrite sinflight_app, spend_app. destruct (Hn o2) as [-> ->]. split; reflexivity. }
+    assert (Hops : forall x, sinflight x (map (SIOp false) (react o (r_calls os))) = [] /\
+                             spend x (map (SIOp false) (react o (r_calls os))) = []).
+    { intros x. split; [apply sinflight_ops|apply spend_ops]. }
+    assert (Hopt : forall i, In i (map (SIOp false) (react o (r_calls os))) -> is_top i = false).
+    { intros i Hin. apply in_map_iff in Hin. destruct Hin as [x [<- _]]. reflexivity. }
+    destruct n as [v|e|].
+    + destruct (Hpush _ Hops Hopt) as [P1 P2]. apply (Hgen false); [exact P1|exact P2|discriminate].
+    + destruct (Hpush (map (SIOp false) (react o (r_calls os)) ++ [SIAdoFin o])) as [P1 P2].
+      * intros x. rewrite sinflight_app, spend_app. destruct (Hops x) as [-> ->]. split; reflexivity.
+      * intros i Hin. apply in_app_or in Hin. destruct Hin as [Hin|[<-|[]]]; [now apply Hopt|reflexivity].
+      * rewrite <- app_assoc in P1, P2. apply (Hgen true); [exact P1|exact P2|reflexivity].
+    + destruct (Hpush (map (SIOp false) (react o (r_calls os)) ++ [SIAdoFin o])) as [P1 P2].
+      * intros x. rewrite sinflight_app, spend_app. destruct (Hops x) as [-> ->]. split; reflexivity.
+      * intros i Hin. apply in_app_or in Hin. destruct Hin as [Hin|[<-|[]]]; [now apply Hopt|reflexivity].
+      * rewrite <- app_assoc in P1, P2. apply (Hgen true); [exact P1|exact P2|reflexivity].
+Qed.
+
+Lemma sinv_drain s m k l :
+  SInv (SCfg s m (SIDrain :: k) l) -> SInv (sstep (SCfg s m (SIDrain :: k) l)).
+Proof.
+  intros I. unfold ReplaySched.sstep. cbn [sc_k sc_st sc_obs sc_rlog].
+  assert (Hnod : snodeliver k) by exact (sclean_top _ _ (sinv_clean _ I) eq_refl).
+  assert (Hck : sclean k) by exact (sclean_tail _ _ (sinv_clean _ I)).
+  assert (Hcd : sclean (SIDrain :: k)) by exact (sinv_clean _ I).
+  destruct (r_sched s) as [|[[it o] cancelled] rest].
+  - apply (sinv_instr_skip s m SIDrain k l); [exact I|intros x; split; reflexivity|exact Hck|
+      apply same_but_obs_refl|reflexivity].
+  - set (s1 := with_sched rest (r_fresh s) s).
+    assert (Hsame : SInv (SCfg s1 m (SIDrain :: k) l)).
+    { apply (sinv_instr_skip s m SIDrain k l); [exact I|intros x; split; reflexivity|exact Hcd|
+        repeat split|reflexivity]. }
+    destruct cancelled; [exact Hsame|].
+    destruct (m o) as [os|] eqn:Hm; [|exact Hsame].
+    destruct (so_queue (r_so os)) as [|n q] eqn:Hq.
+    + (* nothing queued: is_acquired = False *)
+      apply (sinv_instr_one s m SIDrain k l s1 _ o os); [exact I|intros x; split; reflexivity|exact Hcd|
+        repeat split|exact (sinv_nodup _ I)|cbn; tauto|exact Hm| |cbn; tauto].
+      intros X' Hok Hp. split.
+      * eapply (obs_ok_ext react); [| | |exact Hok]; cbn [set_so ra_stopped r_so so_queue so_stopped];
+          [reflexivity|now rewrite Hq|reflexivity].
+      * eapply pend_ok_ext; [| |exact Hp]; cbn; tauto.
+    + (* work = queue.pop(0) *)
+      apply (sinv_instr_generic s m SIDrain k l s1 _ (SIDeliver o n :: SIResched o :: SIDrain :: k) [] I);
+        try reflexivity.
+      * repeat split.
+      * exact (sinv_nodup _ I).
+      * intros o2 Hi. unfold rupd. destruct (Nat.eqb o2 o); [discriminate|]. exact (sinv_dom _ I o2 Hi).
+      * intros o2. unfold rupd. destruct (Nat.eqb o2 o) eqn:E; [discriminate|]. intros H2.
+        apply Nat.eqb_neq in E. rewrite sinflight_deliver_other by exact E. auto.
+      * intros o2 os2. unfold rupd. destruct (Nat.eqb o2 o) eqn:E.
+        -- apply Nat.eqb_eq in E. subst o2. intros [= <-]. exists os. split; [exact Hm|]. cbn [app spend].
+           rewrite sinflight_deliver_same. cbn [sinflight]. rewrite (Hnod o).
+           intros X' EX Hok Hp. exists X'. split; [exact EX|]. split.
+           ++ unfold obs_ok in *. cbn [set_so ra_stopped r_so so_queue so_stopped]. rewrite Hq in Hok. cbn [app] in *. exact Hok.
+           ++ eapply pend_ok_ext; [| |exact Hp]; cbn; tauto.
+        -- apply Nat.eqb_neq in E. intros H2. exists os2. split; [exact H2|]. cbn [app spend].
+           rewrite sinflight_deliver_other by exact E. cbn [sinflight]. intros X' EX Hok Hp. exists X'. auto.
+      * split; [discriminate|]. split; [discriminate|]. exact Hcd.
+      * intros El x. cbn [spend]. exact (sinv_nopend _ I El x).
+Qed.
+
+Theorem sstep_inv c : SInv c -> SInv (sstep c).
+Proof.
+  destruct c as [s m k l]. intros I. destruct k as [|i k].
+  - unfold ReplaySched.sstep. exact I.
+  - destruct i as [top p|top o|top o t|o n|o|o|o|].
+    + unfold ReplaySched.sstep. cbn [sc_k sc_st sc_obs sc_rlog]. now apply sstep_op_inv.
+    + now apply sinv_ensure.
+    + now apply sinv_onensure.
+    + now apply sinv_deliver.
+    + now apply sinv_adofin.
+    + now apply sinv_resched.
+    + now apply sinv_handle.
+    + now apply sinv_drain.
+Qed.
+
 End SchedA.
+
+Lemma SInv_init {A} (sync : bool) (react : nat -> nat -> list (@rop A)) (bs w : option Z) (top : list (@rop A)) :
+  SInv (bufsize_of bs) w (sinit_cfg sync bs w top).
+Proof.
+  assert (Hk : forall o, sinflight o (sc_k (sinit_cfg sync bs w top)) = [] /\
+                         spend o (sc_k (sinit_cfg sync bs w top)) = []).
+  { intros o. cbn [sinit_cfg sc_k]. destruct sync; induction top as [|p t IH]; cbn; auto. }
+  constructor; cbn [sinit_cfg sc_st sc_obs sc_rlog].
+  - unfold st_agree. cbn. split; [destruct bs; reflexivity|]. split; [reflexivity|]. split; [reflexivity|].
+    split; [repeat split|]. intros _. apply qinv_init.
+  - constructor.
+  - intros o [].
+  - intros o _. split; [reflexivity|]. split; [reflexivity|]. exact (Hk o).
+  - intros o os H. discriminate.
+  - apply snodeliver_clean. intros o. exact (proj1 (Hk o)).
+  - intros _ o. exact (proj2 (Hk o)).
+Qed.
+
+(* C22, both scheduler modes, arbitrary call trees: what an observer has received
+   is a prefix of its entitlement -- nothing duplicated, reordered or invented *)
+Theorem sched_prefix {A} (sync : bool) (react : nat -> nat -> list (@rop A)) (bs w : option Z)
+        (top : list (@rop A)) (fuel o : nat) :
+  let c := srun sync react fuel (sinit_cfg sync bs w top) in
+  prefix (rview o (slog_of c)) (xview (bufsize_of bs) w o false rg_init (ops_of (slog_of c))).
+Proof.
+  cbv zeta.
+  assert (I : SInv (bufsize_of bs) w (srun sync react fuel (sinit_cfg sync bs w top))).
+  { generalize (sinit_cfg sync bs w top) (SInv_init sync react bs w top). induction fuel as [|f IH]; intros c Hc; [exact Hc|].
+    cbn [srun]. destruct (sc_k c) eqn:Ek; [exact Hc|]. apply IH. now apply sstep_inv. }
+  exact (SInv_prefix react (bufsize_of bs) w _ o I).
+Qed.
+
+Lemma srun_ind {A} (sync : bool) (react : nat -> nat -> list (@rop A)) (P : @scfg A -> Prop) :
+  (forall c, P c -> P (sstep sync react c)) -> forall n c, P c -> P (srun sync react n c).
+Proof.
+  intros Hs n; induction n as [|n IH]; intros c Hc; [exact Hc|].
+  cbn [srun]. destruct (sc_k c) eqn:Ek; [exact Hc|]. apply IH. now apply Hs.
+Qed.
+
+(* ========================================================================== *)
+(* Part B: no lost wake-up, both modes                                        *)
+(* ========================================================================== *)
+Section SchedB.
+Context {A : Type} (sync : bool) (react : nat -> nat -> list (@rop A)) (b : Z) (w : option Z).
+
+Notation sstep := (sstep sync react).
+
+(* the re-schedulings pending in the continuation, in the vocabulary of Subjects/ReplayLiveFacts.v *)
+Definition emb (k : list (@sinstr A)) : list (@rinstr A) :=
+  flat_map (fun i => match i with SIResched o => [RIResched o] | _ => [] end) k.
+
+Lemma emb_in o k : In (RIResched o) (emb k) <-> In (SIResched o) k.
+Proof.
+  unfold emb. rewrite in_flat_map. split.
+  - intros [i [Hin Hi]]. destruct i; try (destruct Hi; fail). destruct Hi as [[= <-]|[]]. exact Hin.
+  - intros H. exists (SIResched o). split; [exact H|now left].
+Qed.
+
+Lemma emb_app k1 k2 : emb (k1 ++ k2) = emb k1 ++ emb k2.
+Proof. unfold emb. apply flat_map_app. Qed.
+
+(* ScheduledObserver queues are owned or about to be looked at *)
+Definition Qs (m : @romap A) (k : list (@sinstr A)) : Prop :=
+  forall o os, m o = Some os -> ra_stopped os = false -> so_acquired (r_so os) = false ->
+    so_queue (r_so os) = [] \/ exists top, In (SIEnsure top o) k.
+
+(* whatever may schedule outside an inline-draining context has a drain loop behind it *)
+Definition needs_drain (i : @sinstr A) : bool :=
+  match i with
+  | SIOp top _ | SIEnsure top _ | SIOnEnsure top _ _ => negb (inl sync top)
+  | SIResched _ | SIDeliver _ _ => true
+  | _ => false
+  end.
+
+Fixpoint guarded (k : list (@sinstr A)) : Prop :=
+  match k with
+  | [] => True
+  | i :: r => (needs_drain i = true -> In SIDrain r) /\ guarded r
+  end.
+
+Definition Ms (s : @rstate A) (k : list (@sinstr A)) : Prop :=
+  guarded k /\ (r_sched s <> [] -> In SIDrain k).
+
+Lemma guarded_push_in pre r : In SIDrain r -> guarded r -> guarded (pre ++ r).
+Proof.
+  intros Hin Hg. induction pre as [|i pre IH]; [exact Hg|]. cbn [app]. split; [|exact IH].
+  intros _. apply in_or_app. now right.
+Qed.
+
+Lemma guarded_push_free pre r : (forall j, In j pre -> needs_drain j = false) -> guarded r -> guarded (pre ++ r).
+Proof.
+  intros Hf Hg. induction pre as [|i pre IH]; [exact Hg|]. cbn [app]. split.
+  - intros Hn. rewrite (Hf i (or_introl eq_refl)) in Hn. discriminate.
+  - apply IH. intros j Hj. apply Hf. now right.
+Qed.
+
+Definition K2 (c : @scfg A) : Prop :=
+  SInv b w c /\ J (sc_st c) (sc_obs c) (emb (sc_k c)) /\ Qs (sc_obs c) (sc_k c) /\ Ms (sc_st c) (sc_k c).
+
+Lemma Qs_mono (m : @romap A) k k' :
+  (forall top o, In (SIEnsure top o) k -> In (SIEnsure top o) k') -> Qs m k -> Qs m k'.
+Proof.
+  intros Hk HQ o os Hm Hs Ha. destruct (HQ o os Hm Hs Ha) as [H|[top H]]; [now left|right; eauto].
+Qed.
+
+Lemma Qs_upd_stopped (m : @romap A) k o os' : ra_stopped os' = true -> Qs m k -> Qs (rupd m o os') k.
+Proof.
+  intros Hs HQ o2 os2. unfold rupd. destruct (Nat.eqb o2 o); [|apply HQ]. intros [= <-]. congruence.
+Qed.
+
+Lemma Qs_upd_same (m : @romap A) k o os os' :
+  m o = Some os -> so_acquired (r_so os') = so_acquired (r_so os) -> so_queue (r_so os') = so_queue (r_so os) ->
+  (ra_stopped os' = false -> ra_stopped os = false) -> Qs m k -> Qs (rupd m o os') k.
+Proof.
+  intros Hm E1 E2 Hst HQ o2 os2. unfold rupd. destruct (Nat.eqb o2 o) eqn:E; [|apply HQ].
+  apply Nat.eqb_eq in E. subst o2. intros [= <-] Hs Ha. rewrite E2. apply (HQ o os Hm (Hst Hs)). congruence.
+Qed.
+
+Lemma Qs_upd_owned (m : @romap A) k o os' :
+  (so_acquired (r_so os') = false -> so_queue (r_so os') = []) -> Qs m k -> Qs (rupd m o os') k.
+Proof.
+  intros Ho HQ o2 os2. unfold rupd. destruct (Nat.eqb o2 o); [|apply HQ]. intros [= <-] _ Ha. left. now apply Ho.
+Qed.
+
+Lemma in_tail_ne {X} (x i : X) k : In x (i :: k) -> x <> i -> In x k.
+Proof. intros [->|H] Hne; [congruence|exact H]. Qed.
+
+(* ---- the scheduler queue only shrinks by being popped ---- *)
+Lemma cancel_opt_len id (s : @rstate A) : length (r_sched (cancel_opt id s)) = length (r_sched s).
+Proof. destruct id; [cbn; unfold cancel_item; apply map_length|reflexivity]. Qed.
+
+Lemma so_dispose_len (s : @rstate A) so : length (r_sched (fst (so_dispose s so))) = length (r_sched s).
+Proof. unfold so_dispose. destruct (ser_disposed so); [reflexivity|apply cancel_opt_len]. Qed.
+
+Lemma rado_dispose_len (s : @rstate A) os o :
+  length (r_sched (fst (rado_dispose s os o))) = length (r_sched s).
+Proof.
+  unfold rado_dispose. cbn [rsad_disposed rsad_cur]. destruct (rsad_disposed os); [reflexivity|].
+  destruct (rsad_cur os); [|reflexivity]. unfold removable_dispose. cbn [r_so].
+  pose proof (so_dispose_len s (r_so os)) as H. destruct (so_dispose s (r_so os)) as [s1 so1]. cbn [fst] in *.
+  destruct (negb (r_disposed s1) && mem o (r_observers s1)); exact H.
+Qed.
+
+Lemma so_each_keeps_state (g : nat -> @sostate A -> @sostate A) : forall snap (s : @rstate A) m,
+  fst (so_each (fun o s so => (s, g o so)) snap s m) = s.
+Proof.
+  unfold so_each. induction snap as [|o snap IH]; intros s m; [reflexivity|]. cbn [fold_left].
+  destruct (m o); apply IH.
+Qed.
+
+Lemma nonnil_len {X} (l l' : list X) : length l' = length l -> l' <> [] -> l <> [].
+Proof. intros H Hn ->. destruct l'; [congruence|discriminate]. Qed.
+
+Lemma Ms_step c : Ms (sc_st c) (sc_k c) -> Ms (sc_st (sstep c)) (sc_k (sstep c)).
+Proof.
+  destruct c as [s m k l]. cbn [sc_st sc_k]. intros [Hg Hs]. destruct k as [|i r].
+  { unfold ReplaySched.sstep. cbn. split; assumption. }
+  destruct Hg as [Hn Hgr].
+  (* a step that does not touch the scheduler queue and pushes instructions that need no drain (or
+     finds a drain behind) *)
+  assert (Hquiet : forall s' pre, (r_sched s' <> [] -> r_sched s <> []) -> i <> SIDrain ->
+            ((forall j, In j pre -> needs_drain j = false) \/ In SIDrain r) ->
+            Ms s' (pre ++ r)).
+  { intros s' pre Hsch Hi Hpre. split.
+    - destruct Hpre as [Hf|Hin]; [now apply guarded_push_free|now apply guarded_push_in].
+    - intros H. apply in_or_app. right. apply (in_tail_ne _ i); [apply Hs; now apply Hsch|congruence]. }
+  assert (Hdr : forall s' pre, In SIDrain r -> Ms s' (pre ++ r)).
+  { intros s' pre Hin. split; [now apply guarded_push_in|]. intros _. apply in_or_app. now right. }
+  unfold ReplaySched.sstep. cbn [sc_k sc_st sc_obs sc_rlog].
+  destruct i as [top p|top o|top o t|o n|o|o|o|].
+  - (* SIOp *)
+    unfold sstep_op. cbn [needs_drain] in Hn.
+    destruct (inl sync top) eqn:Ei; cbn [negb] in Hn.
+    + (* at top level with the trampoline: everything pushed carries the same flag *)
+      destruct p as [o|o|v|e| | |d].
+      * destruct (m o); cbn [sc_st sc_k]; [apply (Hquiet s []); [tauto|discriminate|left; intros j []]|].
+        destruct (r_disposed s); cbn [sc_st sc_k].
+        -- unfold drain_if. rewrite Ei. split.
+           ++ apply guarded_push_in; [now left|]. split; [discriminate|]. split; [discriminate|exact Hgr].
+           ++ intros _. apply in_or_app. right. now left.
+        -- destruct (ensure_active _ _ _) as [s3 so3]. cbn [sc_st sc_k]. split.
+           ++ split; [discriminate|]. split; [discriminate|exact Hgr].
+           ++ intros _. now left.
+      * destruct (m o) as [os|]; cbn [sc_st sc_k]; [|apply (Hquiet s []); [tauto|discriminate|left; intros j []]].
+        destruct (r_handle os); [|apply (Hquiet s []); [tauto|discriminate|left; intros j []]].
+        pose proof (rado_dispose_len s os o) as Hl. destruct (rado_dispose s os o) as [s' os']. cbn [fst sc_st sc_k] in *.
+        apply (Hquiet s' []); [apply nonnil_len; exact Hl|discriminate|left; intros j []].
+      * destruct (r_disposed s); cbn [sc_st sc_k]; [apply (Hquiet s []); [tauto|discriminate|left; intros j []]|].
+        destruct (r_stopped s); cbn [sc_st sc_k]; [apply (Hquiet s []); [tauto|discriminate|left; intros j []]|].
+        match goal with |- context [so_each ?f ?a ?bb ?c] =>
+          pose proof (so_each_keeps_state (fun _ so => so_on (Next v) so) a bb c) as Hk;
+          destruct (so_each f a bb c) as [s2 m2] end.
+        cbn [fst sc_st sc_k] in *. subst s2.
+        apply Hquiet; [cbn; tauto|discriminate|left].
+        intros j Hj. apply in_map_iff in Hj. destruct Hj as [x [<- _]]. cbn. now rewrite Ei.
+      * destruct (r_disposed s); cbn [sc_st sc_k]; [apply (Hquiet s []); [tauto|discriminate|left; intros j []]|].
+        destruct (r_stopped s); cbn [sc_st sc_k]; [apply (Hquiet s []); [tauto|discriminate|left; intros j []]|].
+        apply Hquiet; [cbn; tauto|discriminate|left].
+        intros j Hj. apply in_map_iff in Hj. destruct Hj as [x [<- _]]. cbn. now rewrite Ei.
+      * destruct (r_disposed s); cbn [sc_st sc_k]; [apply (Hquiet s []); [tauto|discriminate|left; intros j []]|].
+        destruct (r_stopped s); cbn [sc_st sc_k]; [apply (Hquiet s []); [tauto|discriminate|left; intros j []]|].
+        apply Hquiet; [cbn; tauto|discriminate|left].
+        intros j Hj. apply in_map_iff in Hj. destruct Hj as [x [<- _]]. cbn. now rewrite Ei.
+      * cbn [sc_st sc_k]. apply (Hquiet _ []); [cbn; tauto|discriminate|left; intros j []].
+      * destruct (d <? 0); cbn [sc_st sc_k]; apply (Hquiet _ []); try (cbn; tauto); try discriminate; left; intros j [].
+    + (* a drain loop is behind *)
+      specialize (Hn eq_refl).
+      destruct p as [o|o|v|e| | |d].
+      * destruct (m o); cbn [sc_st sc_k]; [apply (Hdr s []); exact Hn|].
+        destruct (r_disposed s); cbn [sc_st sc_k].
+        -- unfold drain_if. rewrite Ei. change (SIHandle o :: r) with ([SIHandle o] ++ r). rewrite app_assoc. now apply Hdr.
+        -- destruct (ensure_active _ _ _) as [s3 so3]. cbn [sc_st sc_k]. now apply (Hdr s3 []).
+      * destruct (m o) as [os|]; cbn [sc_st sc_k]; [|now apply (Hdr s [])].
+        destruct (r_handle os); [|now apply (Hdr s [])].
+        destruct (rado_dispose s os o) as [s' os']. cbn [sc_st sc_k]. now apply (Hdr s' []).
+      * destruct (r_disposed s); cbn [sc_st sc_k]; [now apply (Hdr s [])|].
+        destruct (r_stopped s); cbn [sc_st sc_k]; [now apply (Hdr s [])|].
+        match goal with |- context [so_each ?f ?a ?bb ?c] => destruct (so_each f a bb c) as [s2 m2] end.
+        cbn [sc_st sc_k]. now apply Hdr.
+      * destruct (r_disposed s); cbn [sc_st sc_k]; [now apply (Hdr s [])|].
+        destruct (r_stopped s); cbn [sc_st sc_k]; [now apply (Hdr s [])|]. now apply Hdr.
+      * destruct (r_disposed s); cbn [sc_st sc_k]; [now apply (Hdr s [])|].
+        destruct (r_stopped s); cbn [sc_st sc_k]; [now apply (Hdr s [])|]. now apply Hdr.
+      * cbn [sc_st sc_k]. now apply (Hdr _ []).
+      * destruct (d <? 0); cbn [sc_st sc_k]; now apply (Hdr _ []).
+  - (* SIEnsure *)
+    cbn [needs_drain] in Hn. destruct (m o) as [os|]; cbn [sc_st sc_k].
+    2:{ destruct (inl sync top) eqn:Ei; cbn [negb] in Hn.
+        - apply (Hquiet s []); [tauto|discriminate|left; intros j []].
+        - apply (Hdr s []). now apply Hn. }
+    destruct (ensure_active o s (r_so os)) as [s' so']. cbn [sc_st sc_k]. unfold drain_if.
+    destruct (inl sync top) eqn:Ei; cbn [negb] in Hn.
+    + split; [split; [discriminate|exact Hgr]|intros _; now left].
+    + apply (Hdr s' []). now apply Hn.
+  - (* SIOnEnsure *)
+    cbn [needs_drain] in Hn. destruct (m o) as [os|]; cbn [sc_st sc_k].
+    2:{ destruct (inl sync top) eqn:Ei; cbn [negb] in Hn.
+        - apply (Hquiet s []); [tauto|discriminate|left; intros j []].
+        - apply (Hdr s []). now apply Hn. }
+    destruct (ensure_active o s (so_on t (r_so os))) as [s' so']. cbn [sc_st sc_k]. unfold drain_if.
+    destruct (inl sync top) eqn:Ei; cbn [negb] in Hn.
+    + split; [split; [discriminate|exact Hgr]|intros _; now left].
+    + apply (Hdr s' []). now apply Hn.
+  - (* SIDeliver *)
+    specialize (Hn eq_refl). destruct (m o) as [os|]; cbn [sc_st sc_k]; [|now apply (Hdr s [])].
+    destruct (ra_stopped os); cbn [sc_st sc_k]; [now apply (Hdr s [])|].
+    destruct n; cbn [sc_st sc_k]; [now apply Hdr| |].
+    + change (SIAdoFin o :: r) with ([SIAdoFin o] ++ r). rewrite app_assoc. now apply Hdr.
+    + change (SIAdoFin o :: r) with ([SIAdoFin o] ++ r). rewrite app_assoc. now apply Hdr.
+  - (* SIAdoFin *)
+    destruct (m o) as [os|]; cbn [sc_st sc_k]; [|apply (Hquiet s []); [tauto|discriminate|left; intros j []]].
+    pose proof (rado_dispose_len s os o) as Hl. destruct (rado_dispose s os o) as [s' os']. cbn [fst sc_st sc_k] in *.
+    apply (Hquiet s' []); [apply nonnil_len; exact Hl|discriminate|left; intros j []].
+  - (* SIResched *)
+    specialize (Hn eq_refl). cbn [sc_st sc_k]. now apply (Hdr _ []).
+  - (* SIHandle *)
+    destruct (m o) as [os|]; cbn [sc_st sc_k]; apply (Hquiet s []); try tauto; try discriminate; left; intros j [].
+  - (* SIDrain *)
+    destruct (r_sched s) as [|[[it o] c] rest] eqn:Es; cbn [sc_st sc_k].
+    + split; [exact Hgr|]. intros H. congruence.
+    + destruct c; cbn [sc_st sc_k]; [split; [split; [discriminate|exact Hgr]|intros _; now left]|].
+      destruct (m o) as [os|]; cbn [sc_st sc_k]; [|split; [split; [discriminate|exact Hgr]|intros _; now left]].
+      destruct (so_queue (r_so os)); cbn [sc_st sc_k].
+      * split; [split; [discriminate|exact Hgr]|intros _; now left].
+      * split.
+        -- split; [intros _; right; now left|]. split; [intros _; now left|]. split; [discriminate|exact Hgr].
+        -- intros _. right. right. now left.
+Qed.
+
+End SchedB.
